@@ -31,10 +31,29 @@ def get_gate(name, params=()):
     return ref(*params) if callable(ref) and not hasattr(ref, "matrix") else ref
 
 
-def N(M):
-    return np.array(sympy.Matrix(M).evalf(), dtype=complex)
+class Viol(Exception):
+    """a verdict found deep inside an oracle: carries the failing-case dict"""
 
 
+def viol_guard(fn):
+    def wrapped(case):
+        try:
+            return fn(case)
+        except Viol as v:
+            return v.args[0]
+    wrapped.__doc__ = fn.__doc__
+    return wrapped
+
+
+def N(M, d=None, what=""):
+    """numeric value of a matrix the library returned; with d: it must be d x d (the declared dimension) before anything is computed with it"""
+    A = np.array(sympy.Matrix(M).evalf(), dtype=complex)
+    if d is not None and A.shape != (d, d):
+        raise Viol({"ok": False, "msg": "%s: matrix has shape %s, the gate declares dimension %d" % (what, A.shape, d), "sig": "matrix:shape"})
+    return A
+
+
+@viol_guard
 def gate_case(case):
     """{'gate': name, 'npar': k, 'nq': q, 'numeric_points': m}"""
     name, k, nq = case["gate"], case["npar"], case["nq"]
@@ -80,13 +99,15 @@ def gate_case(case):
     for pt in sub:
         gp = get_gate(name, tuple(float(x) for x in pt))
         try:
-            Un = N(gp.matrix)
+            Un = N(gp.matrix, d, "%s%s" % (name, pt))
+        except Viol:
+            raise
         except Exception as e:  # noqa: BLE001
             return {"ok": False, "msg": "%s%s: matrix cannot be computed: %s" % (name, pt, e), "sig": "matrix:uncomputable-numeric", "ops": ops}
         ops += 2
         if np.abs(Un - np.array(f(*pt), dtype=complex)).max() > 1e-9:
             return {"ok": False, "msg": "%s%s: numeric call path differs from the symbolic matrix evaluated at the same point" % (name, pt), "sig": "matrix:paths-differ", "ops": ops}
-        Dg = N(gp.dagger.matrix)
+        Dg = N(gp.dagger.matrix, d, "%s%s.dagger" % (name, pt))
         if np.abs(Dg - Un.conj().T).max() > 1e-9:
             return {"ok": False, "msg": "%s%s.dagger is not the conjugate transpose (is_hermitian=%s)" % (name, tuple(round(x, 4) for x in pt), g.is_hermitian), "sig": "dagger", "ops": ops}
     # (a) the Hermitian flag and dagger are functions of the parameter VALUES, not polynomials: special values are checked explicitly;
@@ -97,18 +118,35 @@ def gate_case(case):
     _ = g.matrix
     for pt in itertools.product(special, repeat=k) if k <= 2 else [(a, a, a) for a in special] + [(0, np.pi, 0.5), (0.5, 0, 0)]:
         gp = get_gate(name, pt)
-        Un = N(gp.matrix)
+        Un = N(gp.matrix, d, "%s%s" % (name, pt))
         ops += 3
         if gp.is_hermitian and np.abs(Un - Un.conj().T).max() > 1e-9:
             return {"ok": False, "msg": "%s%s is flagged self-adjoint but differs from its conjugate transpose" % (name, pt), "sig": "hermitian-flag", "ops": ops}
-        if np.abs(N(gp.dagger.matrix) - Un.conj().T).max() > 1e-9:
+        if np.abs(N(gp.dagger.matrix, d, "%s%s.dagger" % (name, pt)) - Un.conj().T).max() > 1e-9:
             return {"ok": False, "msg": "%s%s.dagger is not the conjugate transpose (is_hermitian=%s)" % (name, pt, gp.is_hermitian), "sig": "dagger", "ops": ops}
         if np.abs(Un.conj().T @ Un - np.eye(d)).max() > 1e-9:
             return {"ok": False, "msg": "%s%s is not unitary" % (name, pt), "sig": "unitary", "ops": ops}
         fpt = tuple(float(x) for x in pt)
         for route, other in (("replace_params after .matrix", seed_gate.replace_params(fpt)), ("bind after .matrix", g.bind(dict(zip(syms, fpt))))):
-            if np.abs(N(other.matrix) - np.array(f(*fpt), dtype=complex)).max() > 1e-9 or tuple(float(x) for x in other.params) != fpt:
+            if np.abs(N(other.matrix, d, "%s%s by %s" % (name, fpt, route)) - np.array(f(*fpt), dtype=complex)).max() > 1e-9 or tuple(float(x) for x in other.params) != fpt:
                 return {"ok": False, "msg": "%s%s obtained by %s does not have the matrix of its parameters" % (name, fpt, route), "sig": "matrix:stale-after-" + route.split(" ")[0], "ops": ops}
+        # (c) the same real values reached through compound parameter expressions: theta_i + 2u with u bound to exactly 0, and (one parameter) 0*theta + 2u
+        u = sympy.Symbol("u", real=True)
+        routes = [("bind of theta+2u at u=0", get_gate(name, tuple(sy + 2 * u for sy in syms)), {**dict(zip(syms, fpt)), u: 0})]
+        if k == 1:
+            routes.append(("bind of theta+2u at theta=0", get_gate(name, (syms[0] + 2 * u,)), {syms[0]: 0, u: fpt[0] / 2}))
+            routes.append(("two-step bind of 2*theta*u", get_gate(name, (2 * syms[0] * u,)).bind({u: 0.5}), {syms[0]: fpt[0]}))
+        for route, comp, smap in routes:
+            ops += 1
+            other = comp.bind(smap)
+            try:
+                Uo = N(other.matrix, d, "%s%s by %s" % (name, fpt, route))
+            except Viol:
+                raise
+            except Exception as e:  # noqa: BLE001
+                return {"ok": False, "msg": "%s%s reached by %s: matrix cannot be computed (%s: %s); parameters reported: %s" % (name, fpt, route, type(e).__name__, e, other.params), "sig": "matrix:uncomputable-after-bind", "ops": ops}
+            if np.abs(Uo - np.array(f(*fpt), dtype=complex)).max() > 1e-9:
+                return {"ok": False, "msg": "%s%s reached by %s does not have the matrix of its parameter values" % (name, fpt, route), "sig": "matrix:bind-route", "ops": ops}
     if name == "Delay":
         for dly in (0, 1, 2.5, sympy.Symbol("d")):
             if sympy.Matrix(get_gate("Delay", (dly,)).matrix) != sympy.eye(2):
@@ -117,6 +155,7 @@ def gate_case(case):
             "key": "%s deg=%s grid=%d worst=%.1e" % (name, degs, len(grid), worst)}
 
 
+@viol_guard
 def group_case(case):
     """{'gate': name}: U(a)U(b) = U(a+b) on the 2-D certificate grid, U(0) = I"""
     name = case["gate"]
@@ -128,7 +167,7 @@ def group_case(case):
     D = deg[t] if certified else 2
     f = sympy.lambdify([t], M, "numpy")
     d = 2 ** g.num_qubits
-    if np.abs(np.array(f(0.0), dtype=complex) - np.eye(d)).max() > EPS or np.abs(N(get_gate(name, (0,)).matrix) - np.eye(d)).max() > EPS:
+    if np.abs(np.array(f(0.0), dtype=complex) - np.eye(d)).max() > EPS or np.abs(N(get_gate(name, (0,)).matrix, d, "%s(0)" % name) - np.eye(d)).max() > EPS or np.abs(N(get_gate(name, (0.0,)).matrix, d, "%s(0.0)" % name) - np.eye(d)).max() > EPS:
         return {"ok": False, "msg": "%s(0) is not the identity" % name, "sig": "group:zero"}
     pts = cutoff.grid_points(2 * D + 1)   # residual U(a)U(b) - U(a+b) has degree D in a and D in b
     ops = 0
@@ -140,7 +179,7 @@ def group_case(case):
                 return {"ok": False, "msg": "%s(a) %s(b) != %s(a+b) at a=%.4f b=%.4f" % (name, name, name, a, b), "observed": "residual %.3e" % np.abs(R).max(), "sig": "group:law", "ops": ops}
     # numeric path on the diagonal of the grid
     for a, b in zip(pts, pts[::-1]):
-        R = N(get_gate(name, (float(a),)).matrix) @ N(get_gate(name, (float(b),)).matrix) - N(get_gate(name, (float(a + b),)).matrix)
+        R = N(get_gate(name, (float(a),)).matrix, d, name) @ N(get_gate(name, (float(b),)).matrix, d, name) - N(get_gate(name, (float(a + b),)).matrix, d, name)
         ops += 1
         if np.abs(R).max() > 1e-9:
             return {"ok": False, "msg": "%s(a) %s(b) != %s(a+b) on the numeric path" % (name, name, name), "sig": "group:law-numeric", "ops": ops}
@@ -184,16 +223,20 @@ def flags_case(case):
     return {"ok": True, "nt": False, "out": "flag%s" % g.is_hermitian}
 
 
+@viol_guard
 def held_case(case):
     """{'order': 'fwd'|'rev'}: ONE process builds every gate of the table at many exact parameter values (ints, negative ints, floats, sympy numbers),
     keeps every gate object and every returned matrix, and only afterwards checks them: each gate reports the parameters it was asked for, each held
     matrix is unchanged since it was returned and equals the symbolic matrix at its parameters, and the group law holds between HELD matrices"""
     import math
+    from fractions import Fraction
     vals1 = [-2, -1, 0, 1, 2, 3, -1.0, -2.0, 0.5, sympy.Integer(-1), sympy.Integer(-2), sympy.Rational(1, 2), math.pi, -0.5,
+             Fraction(1, 2), Fraction(3, 2), Fraction(-7, 3), Fraction(3, 1), 0.0, -0.0, 10 ** 3, 7.25, -13.5, 100.0,
              # exact symbolic constants (exact zeros of cos/sin appear: nothing may divide by them) and tiny angles (entries of order 1e-8 are still entries)
              sympy.pi, sympy.pi / 2, 2 * sympy.pi, -sympy.pi, sympy.pi / 3, 3 * sympy.pi, 1.5e-8, -4e-8, 3e-7]
     valsk = [-2, -1, 0.5]
     valsk_exact = [sympy.pi, 0, sympy.pi / 2]
+    valsk_frac = [Fraction(3, 2), 0.0]
     table = TABLE if case["order"] == "fwd" else TABLE[::-1]
     held, funcs = [], {}
     ops = 0
@@ -201,7 +244,7 @@ def held_case(case):
         syms = sympy.symbols("theta phi lam", real=True)[:k]
         if k:
             funcs[name] = sympy.lambdify(syms, get_gate(name, syms).matrix, "numpy")
-        pts = [()] if k == 0 else [(v,) for v in vals1] if k == 1 else list(itertools.product(valsk, repeat=k)) + list(itertools.product(valsk_exact, repeat=k)) + [(1.5e-8,) * k]
+        pts = [()] if k == 0 else [(v,) for v in vals1] if k == 1 else list(itertools.product(valsk, repeat=k)) + list(itertools.product(valsk_exact, repeat=k)) + list(itertools.product(valsk_frac, repeat=k)) + [(1.5e-8,) * k]
         if case["order"] == "rev":
             pts = pts[::-1]
         for pt in pts:
@@ -210,6 +253,8 @@ def held_case(case):
             if g.name != name or len(g.params) != k or any(abs(complex(a) - complex(b)) > 0 for a, b in zip(g.params, pt)):
                 return {"ok": False, "msg": "%s%s was asked for, the gate returned reports %s%s" % (name, pt, g.name, tuple(g.params)), "sig": "held:params", "ops": ops}
             M = g.matrix
+            if tuple(M.shape) != (2 ** nq, 2 ** nq):
+                return {"ok": False, "msg": "%s%s: matrix has shape %s, the gate declares %d qubit(s)" % (name, pt, tuple(M.shape), nq), "sig": "matrix:shape", "ops": ops}
             held.append((name, pt, g, M, sympy.ImmutableMatrix(M)))
     for name, pt, g, M, snap in held:
         ops += 1
